@@ -146,6 +146,24 @@ CHECKS = {
              "generated within capacity 28",
         technique="Lean 4 proof over an executable model + op-sequence differential correspondence under sanitizers",
         design="§5 C14"),
+    "C16": dict(
+        text="Lean 4 theorems for every alignment, file content, offset before end-of-file and length: a read through the alignment adaptor "
+             "returns exactly the plain file's bytes and count (whatever the memory-alignment mode); every read and write request the adaptor "
+             "issues (the bounce-buffer read, the read-modify-write of the first and last block, the write) has offset and length that are "
+             "multiples of the alignment; a read from a fixed-size linear composite and from a stripe composite equals the read from the flat "
+             "file of the concatenated / striped layout clipped at the composite's size, for every unit/stripe size, sub-file count, offset and "
+             "length - the parts are those of the C15 model of range_split and C15_tiling supplies the tiling. The whole model (incl. aligned "
+             "pwrite with truncation, composite writes, the variable-size composite) is executable and tied to the code by op sequences run on "
+             "the real adaptors over in-memory recording sub-files under ASan/UBSan, compared with the compiled model on return value, data, "
+             "content of every sub-file and the exact underlay request log; an independent flat-file oracle (incl. buffer-address alignment) "
+             "supplies failing inputs",
+        note="trusted: Lean kernel + 3 standard axioms; PARTIAL: the write paths (aligned pwrite's read-modify-write and truncation, composite "
+             "writes), the vectored variants and the variable-size linear composite have no closed-form theorem - for them the claim rests on "
+             "the differential check and the flat-file oracle over generated op sequences; offsets are far below 2^63 (plain Nat arithmetic; "
+             "wrap-around of the splitters is C15); align_memory is exercised with alignment >= 8 only (AlignedAlloc uses posix_memalign); "
+             "requests that start at or after end-of-file are outside the statement and are only compared model-vs-code",
+        technique="Lean 4 proof over an executable model + op-sequence differential correspondence under sanitizers",
+        design="§5 C16"),
     "C18": dict(
         text="Lean 4 theorem by induction over every history of lock / try-lock-and-wait / unlock (handle or range) / adjust operations, any "
              "threads, any ranges (zero-length, adjacent, nested, saturating at the top of the 64-bit space): the index stays sorted by the "
